@@ -208,6 +208,17 @@ func (a *Act) callFn1(st *State, callee *ssa.Function, args []Val, env []Val, po
 	if a.canInline(callee, a.stack) && len(a.stack) < 10 {
 		return a.inline(st, callee, args, env, pos)
 	}
+	// a known function outside the contract set that is not handed any function value cannot reach the
+	// callbacks of the function under verification: its (unknown) effect spares the event trace
+	if !sigTakesFunc(callee.Signature) || !a.top.hasDynamicCallbacks() {
+		a.u.Opaque[a.u.E.KeyOf(callee)] = true
+		a.havocHeaps(st, false)
+		st.setHeap(outHeap, "Int", a.u.D.Fresh("out", "Int"))
+		okNew := a.u.D.Fresh("outok", "Bool")
+		a.u.Fact(implies(okNew, st.heap(outOKHeap, "Bool")))
+		st.setHeap(outOKHeap, "Bool", okNew)
+		return a.freshResult(st, sig)
+	}
 	return a.opaqueCall(st, a.u.E.KeyOf(callee), sig, pos)
 }
 
@@ -262,10 +273,22 @@ func (a *Act) opaqueCall(st *State, what string, sig *types.Signature, pos token
 	return a.freshResult(st, sig)
 }
 
-func (a *Act) havocAll(st *State) {
+func (a *Act) havocAll(st *State) { a.havocHeaps(st, true) }
+
+func isGhostHeap(n string) bool {
+	_, isTrace := traceSorts[n]
+	return isTrace || strings.HasPrefix(n, "T_arg_") || strings.HasPrefix(n, "T_res") || strings.HasPrefix(n, "T_recv_") || n == outHeap || n == outOKHeap
+}
+
+// havocHeaps forgets the program heaps; the ghost heaps (event trace, output counter) only when asked:
+// at a call by contract they follow their own rules (see callByContract).
+func (a *Act) havocHeaps(st *State, ghostToo bool) {
 	u := a.u
 	var names []string
 	for n := range u.heapSort {
+		if !ghostToo && isGhostHeap(n) {
+			continue
+		}
 		names = append(names, n)
 	}
 	sort.Strings(names)
@@ -278,6 +301,9 @@ func (a *Act) havocAll(st *State) {
 	// heaps first used later are unconstrained anyway only if their initial constant is not reused:
 	// record the havoc so that later first uses get a fresh constant
 	st.havocGen = u.newHavocGen()
+	if ghostToo {
+		st.ghostGen = st.havocGen
+	}
 }
 
 func (a *Act) invoke(st *State, com *ssa.CallCommon, pos tokenPos) Val {
@@ -825,4 +851,54 @@ func (a *Act) closedWorldTargets(com *ssa.CallCommon) (fns []*ssa.Function, ok b
 		}
 	}
 	return fns, len(fns) > 0
+}
+
+func sigTakesFunc(sig *types.Signature) bool {
+	ps := sig.Params()
+	for i := 0; i < ps.Len(); i++ {
+		t := types.Unalias(ps.At(i).Type()).Underlying()
+		if sl, ok := t.(*types.Slice); ok {
+			t = types.Unalias(sl.Elem()).Underlying()
+		}
+		switch t.(type) {
+		case *types.Signature, *types.Interface, *types.Struct, *types.Pointer, *types.Map:
+			// function values can travel inside interfaces, structs and through pointers
+			if _, isSig := t.(*types.Signature); isSig {
+				return true
+			}
+			if mayCarryFunc(ps.At(i).Type(), 0) {
+				return true
+			}
+		}
+	}
+	return false
+}
+
+// mayCarryFunc: a value of this type can hold a function value of the repository (an empty interface
+// or a struct/pointer chain with a func-typed field).
+func mayCarryFunc(t types.Type, depth int) bool {
+	if depth > 3 {
+		return false
+	}
+	switch u := types.Unalias(t).Underlying().(type) {
+	case *types.Signature:
+		return true
+	case *types.Pointer:
+		return mayCarryFunc(u.Elem(), depth+1)
+	case *types.Slice:
+		return mayCarryFunc(u.Elem(), depth+1)
+	case *types.Map:
+		return mayCarryFunc(u.Elem(), depth+1)
+	case *types.Struct:
+		for i := 0; i < u.NumFields(); i++ {
+			if mayCarryFunc(u.Field(i).Type(), depth+1) {
+				return true
+			}
+		}
+	case *types.Interface:
+		// only the empty interface can be handed arbitrary repository values such as closures; a method
+		// interface (io.Reader, io.Writer) is reached through its methods, which are not callbacks here
+		return u.NumMethods() == 0
+	}
+	return false
 }
